@@ -1,4 +1,170 @@
+/-
+C14 — property theorems (statements fixed by the architect; do not weaken).
+`Gen.ConfNet.advanceOnAppend` is GENERATED from the Python source on every run (does the append branch
+of add_hypothese advance cn_pointer?). Theorems that need it to be `true` must obtain that fact ONLY
+through the lemma `adv_true` below (proved by `rfl`/`decide`), so that a source change re-opens them.
+Helper lemmas: PeroVerif/Lemmas/ConfNet.lean.
+-/
+import Mathlib.Algebra.Order.Field.Basic
 import PeroVerif.Model.ConfNet
+import PeroVerif.Spec.ConfNet
+import PeroVerif.Generated.ConfNet
+import PeroVerif.Lemmas.Lev
+import PeroVerif.Lemmas.ConfNet
+
 namespace C14
-theorem placeholder : (1:Nat) = 1 := rfl
+open CN Py
+
+/-- obligation on the generated flag -/
+theorem adv_true : Gen.ConfNet.advanceOnAppend = true := rfl
+
+section Any
+variable {W : Type} (o : WOps W)
+
+/-- Adding a hypothesis never fails (no IndexError) and keeps the network well-formed. -/
+theorem addHyp_total (cn : Net W) (tr : List Nat) (s : W) (h : WFNet cn) :
+    ∃ cn', addHyp o Gen.ConfNet.advanceOnAppend cn tr s = some cn' ∧ WFNet cn' := by
+  by_cases hne : cn = []
+  · subst hne
+    exact ⟨_, CNL.addHyp_nil o _ tr s, CNL.wf_first s tr⟩
+  · obtain ⟨cn', h', hw⟩ := CNL.addHyp_walk o _ adv_true cn tr s hne h
+    exact ⟨cn', h', hw.wf⟩
+
+/-- Every string readable before is readable afterwards (non-empty network). -/
+theorem add_keeps (cn cn' : Net W) (tr : List Nat) (s : W) (w : List Nat) (hne : cn ≠ [])
+    (hr : Readable cn w) (h : addHyp o Gen.ConfNet.advanceOnAppend cn tr s = some cn') :
+    Readable cn' w :=
+  (CNL.addHyp_walk' o _ adv_true cn cn' tr s hne h).keeps w hr
+
+/-- The new hypothesis is readable in its original symbol order. -/
+theorem add_reads_new (cn cn' : Net W) (tr : List Nat) (s : W) (hwf : WFNet cn)
+    (h : addHyp o Gen.ConfNet.advanceOnAppend cn tr s = some cn') :
+    Readable cn' tr := by
+  by_cases hne : cn = []
+  · subst hne
+    rw [CNL.addHyp_nil] at h
+    cases h
+    exact CNL.readable_first s tr
+  · exact (CNL.addHyp_walk' o _ adv_true cn cn' tr s hne h).reads_new
+
+/-- For every history whose first hypothesis is non-empty: building never fails and EVERY added
+hypothesis is readable from the final network (normalised or not). -/
+theorem history_readable (first : List Nat × W) (rest : List (List Nat × W)) (norm : Bool)
+    (hne : first.1 ≠ []) :
+    ∃ cn, fromHyps o Gen.ConfNet.advanceOnAppend (first :: rest) norm = some cn ∧
+      ∀ h ∈ first :: rest, Readable cn h.1 := by
+  have hne₁ : (first.1.map fun c => ([(some c, first.2)] : Pos W)) ≠ [] := by
+    simpa using hne
+  obtain ⟨cn', h', hk, hr⟩ := CNL.foldlM_hyps o _ adv_true rest _ hne₁ (CNL.wf_first first.2 first.1)
+  have hall : ∀ h ∈ first :: rest, Readable cn' h.1 := by
+    intro h hh
+    rcases List.mem_cons.1 hh with rfl | hh
+    · exact hk _ (CNL.readable_first _ _)
+    · exact hr h hh
+  refine ⟨if norm then normalize o cn' else cn', ?_, ?_⟩
+  · simp only [fromHyps, List.foldlM_cons, CNL.addHyp_nil, Option.bind_eq_bind, Option.bind_some]
+    rw [h']; rfl
+  · intro h hh
+    split
+    · exact CNL.readable_normalize o cn' _ (hall h hh)
+    · exact hall h hh
+
+/-- `sorted_cn_paths` is a permutation of the full Cartesian product of the arcs (each combination
+exactly once), and a network built from a single hypothesis has exactly one path. -/
+theorem paths_perm (cn : Net W) (hne : cn ≠ []) :
+    (sortedPaths o cn).Perm
+      ((product (cn.map (sortDesc o))).map fun arcs => (pathString arcs, pathProb o arcs)) := by
+  simp only [sortedPaths, if_neg hne]
+  exact List.mergeSort_perm _ _
+
+theorem product_complete (ps : List (List (Arc × W))) :
+    (product ps).length = (ps.map List.length).foldl (· * ·) 1 ∧
+    ∀ choice : List (Arc × W), choice ∈ product ps ↔
+      (choice.length = ps.length ∧ ∀ i (hi : i < choice.length) (hj : i < ps.length), choice[i] ∈ ps[i]) := by
+  rw [CNL.product_eq]
+  exact ⟨CNL.prod'_length ps, CNL.mem_prod' ps⟩
+
+theorem product_nodup (ps : List (List (Arc × W))) (h : ∀ p ∈ ps, p.Nodup) : (product ps).Nodup := by
+  rw [CNL.product_eq]; exact CNL.prod'_nodup ps h
+
+/-- the known corner (recorded as a finding): a leading empty hypothesis leaves no trace -/
+theorem empty_first_forgotten (s : W) (c : Nat) :
+    addHyp o Gen.ConfNet.advanceOnAppend [] [] s = some [] ∧
+    ∀ cn', addHyp o Gen.ConfNet.advanceOnAppend [] [c] s = some cn' → ¬ Readable cn' [] := by
+  refine ⟨by simp [CNL.addHyp_nil], ?_⟩
+  intro cn' h
+  rw [CNL.addHyp_nil] at h
+  cases h
+  rintro ⟨a, ha, w', _, hw⟩
+  simp [Dict.keys] at ha
+  subst ha
+  simp at hw
+
+end Any
+
+section Field
+variable {W : Type} [Field W] [LinearOrder W] [IsStrictOrderedRing W]
+
+def WOps.of (W : Type) [Field W] [LinearOrder W] : WOps W :=
+  { zero := 0, one := 1, add := (· + ·), mul := (· * ·), lt := fun a b => decide (a < b),
+    div := (· / ·), ofNat := fun n => (n : W) }
+
+omit [IsStrictOrderedRing W] in
+theorem WOps.of_eq : WOps.of W = CNL.fieldOps W := rfl
+
+/-- `bump` adds exactly the score on one arc and touches nothing else. -/
+theorem bump_spec (p : Pos W) (k : Arc) (s : W) :
+    posTotal (WOps.of W) (bump (WOps.of W) p k s) = posTotal (WOps.of W) p + s ∧
+    (∀ k', k' ≠ k → Dict.get? (bump (WOps.of W) p k s) k' = Dict.get? p k') ∧
+    Dict.get? (bump (WOps.of W) p k s) k = some ((Dict.get? p k).getD 0 + s) := by
+  rw [WOps.of_eq]
+  exact ⟨CNL.posTotal_bump p k s, fun k' h => CNL.get?_bump_ne p k k' s h, CNL.get?_bump_self p k s⟩
+
+/-- No weight is lost: if every position carries total `T`, then after adding a hypothesis of score
+`s` every position (old and new) carries `T + s`; a first hypothesis gives total `s`. -/
+theorem add_weight (cn cn' : Net W) (tr : List Nat) (s T : W) (hne : cn ≠ []) (hwf : WFNet cn)
+    (hu : Uniform (WOps.of W) cn T)
+    (h : addHyp (WOps.of W) Gen.ConfNet.advanceOnAppend cn tr s = some cn') :
+    Uniform (WOps.of W) cn' (T + s) := by
+  rw [WOps.of_eq] at *
+  exact CNL.addHyp_uniform _ adv_true cn cn' tr s T hne hu h
+
+theorem add_weight_first (tr : List Nat) (s : W) :
+    ∃ cn', addHyp (WOps.of W) Gen.ConfNet.advanceOnAppend [] tr s = some cn' ∧
+      Uniform (WOps.of W) cn' s ∧ cn'.length = tr.length := by
+  rw [WOps.of_eq]
+  exact ⟨_, CNL.addHyp_nil _ _ tr s, CNL.uniform_first tr s, by simp⟩
+
+/-- After normalisation the weights at every position sum to 1. -/
+theorem normalize_sums_one (cn : Net W) (h : ∀ p ∈ cn, posTotal (WOps.of W) p ≠ 0) :
+    Uniform (WOps.of W) (normalize (WOps.of W) cn) 1 := by
+  rw [WOps.of_eq] at *
+  exact CNL.normalize_uniform cn h
+
+/-- Paths come out in non-increasing probability order. -/
+theorem paths_sorted (cn : Net W) :
+    (sortedPaths (WOps.of W) cn).Pairwise fun a b => b.2 ≤ a.2 := by
+  rw [WOps.of_eq]
+  exact CNL.sortedPaths_pairwise cn
+
+/-- The probabilities of all paths of a network whose positions each sum to 1 sum to 1. -/
+theorem paths_sum_one (cn : Net W) (hne : cn ≠ []) (hu : Uniform (WOps.of W) cn 1) :
+    ((sortedPaths (WOps.of W) cn).map (·.2)).sum = 1 := by
+  rw [WOps.of_eq] at *
+  exact CNL.sortedPaths_sum cn hne hu
+
+/-- A network built from a single hypothesis reads back as that hypothesis. -/
+theorem single_hyp_reads_back (tr : List Nat) (s : W) (hs : 0 < s) (hne : tr ≠ []) :
+    ∃ cn, fromHyps (WOps.of W) Gen.ConfNet.advanceOnAppend [(tr, s)] true = some cn ∧
+      bestPath (WOps.of W) cn = some tr ∧ sortedPaths (WOps.of W) cn = [(tr, 1)] := by
+  rw [WOps.of_eq]
+  refine ⟨tr.map fun c => ([(some c, 1)] : Pos W), ?_, ?_, CNL.sortedPaths_single tr hne⟩
+  · simp only [fromHyps, List.foldlM_cons, List.foldlM_nil, CNL.addHyp_nil, Option.bind_eq_bind,
+      Option.bind_some, if_true]
+    show some (normalize (CNL.fieldOps W) _) = _
+    rw [CNL.normalize_first tr s (ne_of_gt hs)]
+  · simp [bestPath, CNL.getPivot_single, List.filterMap_map]
+
+end Field
+
 end C14
